@@ -21,7 +21,7 @@ theorem needsTy_congr (outs : List (String × Ty)) (lower : String → String) (
   suffices H : ∀ acc : List (String × Ty),
       needs.foldl (fun ps id =>
         let i := lower id.value
-        if i = n.id.value then ps
+        if i = lower n.id.value then ps
         else if (Ty.lookup i ps).isSome then ps
         else match lookupJob i jobs with
           | none => ps
@@ -30,7 +30,7 @@ theorem needsTy_congr (outs : List (String × Ty)) (lower : String → String) (
             Ty.setProp i (.obj [("outputs", outs), ("result", .string)] none) ps) acc =
       needs.foldl (fun ps id =>
         let i := lower id.value
-        if i = n.id.value then ps
+        if i = lower n.id.value then ps
         else if (Ty.lookup i ps).isSome then ps
         else match lookupJob i jobs' with
           | none => ps
@@ -44,7 +44,7 @@ theorem needsTy_congr (outs : List (String × Ty)) (lower : String → String) (
     simp only [List.foldl_cons]
     have hid := h id (by simp)
     have step : (let i := lower id.value
-        if i = n.id.value then acc
+        if i = lower n.id.value then acc
         else if (Ty.lookup i acc).isSome then acc
         else match lookupJob i jobs with
           | none => acc
@@ -52,7 +52,7 @@ theorem needsTy_congr (outs : List (String × Ty)) (lower : String → String) (
             let outs := if j.workflowCall.isNone then declaredOutputsTy j else (Ty.lookup i outs).getD mapOfString
             Ty.setProp i (.obj [("outputs", outs), ("result", .string)] none) acc) =
         (let i := lower id.value
-        if i = n.id.value then acc
+        if i = lower n.id.value then acc
         else if (Ty.lookup i acc).isSome then acc
         else match lookupJob i jobs' with
           | none => acc
